@@ -105,4 +105,25 @@ def runFits (crc : Bytes → Nat) : World → List Op → Bool
   | _, [] => true
   | w, op :: ops => flushOK w op && runFits crc (step crc w op).1 ops
 
+/-! ## a decidable size budget of a history that rules out `struct.error` -/
+
+/-- bytes a new entry can add to the directory tree besides its preload: three name strings with their
+terminators and block terminators, and the 18-byte record -/
+def keyCost (k : Key) : Nat := k.ext.length + k.dir.length + k.name.length + 26
+
+/-- an upper bound of what an operation can add to the directory tree, the directory tail or an archive -/
+def opCost : Op → Nat
+  | .newFile n => keyCost (getFileParts n)
+  | .addFile n d _ => 2 * keyCost (getFileParts n) + d.length
+  | .write n d _ => keyCost (getFileParts n) + d.length
+  | _ => 0
+
+def histCost (ops : List Op) : Nat := (ops.map opCost).sum
+
+/-- the archive index fits the 16-bit field -/
+def idxSmall : Op → Bool
+  | .addFile _ _ idx => decide (idx.getD 0 < 65536)
+  | .write _ _ idx => decide (idx.getD 0 < 65536)
+  | _ => true
+
 end C13
